@@ -5,6 +5,10 @@ pid=sys.argv[1]
 for l in open('/verif/properties.jsonl'):
     p=json.loads(l)
     if p['id']==pid: break
+rnd=sys.argv[2] if len(sys.argv)>2 else ''
+HINT="Earlier rounds of this exercise have already produced the most obvious mistakes for this property (dropping the central check, off-by-one in the main loop); prefer a less obvious mechanism, a secondary code path, or a different clause of the statement."
+if rnd=='5':
+    HINT="Four earlier rounds of this exercise have already produced the obvious mistakes for this property (dropping the central check, off-by-one in the main loop, a swapped argument). This round asks for mistakes that hide inside ordinary maintenance: change m1 should look like a REFACTORING commit (extract or inline a helper, rename an unexported identifier, turn a method into a function, merge two branches, restructure a condition, replace an if-chain by a table or switch, move a statement, replace defer by explicit cleanup or the reverse) that is behaviour-preserving everywhere except in one corner case where it breaks the property; change m2 should be a small semantic slip in a secondary code path, an error path, a rarely used option or configuration, or in the interplay of two sites that each look fine alone. Prefer a different clause of the statement for each."
 print(f"""You are helping to evaluate a verification effort for the Go RPC framework TarsCloud/TarsGo by writing realistic *bug injections*.
 
 You have your own scratch git worktree of the TarsGo repository at /tmp/seed/{pid} (detached HEAD). Work ONLY inside /tmp/seed/{pid} and write your results to /tmp/seed-out/{pid}/. Do not read or touch /repo or /verif or any other directory under /tmp/seed*. The sandbox has no network. For every shell command first run:
@@ -17,7 +21,7 @@ The property (this is the only specification you get):
   Statement: {p['statement']}
   Quantified over: {p['quantifier']['text']}
 
-Earlier rounds of this exercise have already produced the most obvious mistakes for this property (dropping the central check, off-by-one in the main loop); prefer a less obvious mechanism, a secondary code path, or a different clause of the statement.
+{HINT}
 
 Your task: produce TWO independent changes (m1 and m2, each applied separately to a clean tree, touching different mechanisms/sites and preferably different clauses of the statement) to the TarsGo *non-test source code* such that each change
   (a) BREAKS the property above (for some input / schedule / fault / history), 
